@@ -70,7 +70,10 @@ def plan_mismatch(case, got):
         if len(cmds) != len(ex["stages"]):
             return "pipe-structure"
         for c, argv in zip(cmds, ex["stages"]):
-            if c.get("redirects_to") or c.get("redirect_from"):
+            want_from = None
+            if case.get("rin") and c is cmds[-1] and pl is plans[-1]:
+                want_from = ["<", "a"] if case["rin"] == "lt" else ["<<<", "w"]
+            if c.get("redirects_to") or c.get("redirect_from") != want_from:
                 return "redirection"
             if [t[1] for t in c.get("tokens", [])] != argv:
                 return "argv"
@@ -147,7 +150,16 @@ def runner(rep, tier, seed, replay):
     if rs.violation:
         raise ToolError("reference reader violates its theorem in simulation:\n" + rs.violation[:3000])
     rep.add_tlc(rs)
-    log("[C01] %d cases from TLC" % len(cases))
+    # the same argument next to a real input redirection typed by the user (`< a`, `<<< w`): a quoted / escaped `<` must stay
+    # an argument there too.  Derived from the end-of-line cases whose argument contains < > & or |, plus a sample
+    der = []
+    for c in cases:
+        f = c["feat"]
+        if f["ctx"] == "end" and f["pos"] != "list" and (set(f["chars"]) & set("<>&|") or rnd.random() < 0.02):
+            for rin, tail in (("lt", " < a"), ("here", " <<< w")):
+                der.append({"line": c["line"] + tail, "segs": c["segs"], "feat": dict(f, ctx="end+" + rin), "rin": rin})
+    cases += der
+    log("[C01] %d cases from TLC (%d with a real input redirection appended)" % (len(cases), len(der)))
     # (A) in-process plan for every behaviour
     wd = os.path.join(WORK, "c01-cwd-%d" % os.getpid())
     shutil.rmtree(wd, ignore_errors=True)
